@@ -586,6 +586,8 @@ def _scal_cfgs(tier):
         v = ["t0", "pf", "ps"]
         if mods.points(c) <= 16:
             v.append("bps")
+            if c[0] not in ("pi4qpsk", "psk"):  # PSKDemodulator indexes the variance per symbol and rejects (B, 1) with an IndexError
+                v.append("bs1")  # one noise variance PER SAMPLE of a batch: shape (B, 1) against y of shape (B, N)
         out += with_variants([c], v)
     return out
 
@@ -596,7 +598,7 @@ def soft_scaling(ctx, vcfg):
     bps = per-symbol tensor on a (1,2) batch"""
     cfg, form = split_variant(vcfg)
     sc = Scheme(cfg)
-    shape = (1, 2) if form == "bps" else ((2,) if form == "ps" or cfg[0] == "pi4qpsk" else (1,))
+    shape = (2, 2) if form == "bs1" else ((1, 2) if form == "bps" else ((2,) if form == "ps" or cfg[0] == "pi4qpsk" else (1,)))
     # native samples (differential cross-check, replay search) stay near the constellation: float32 evaluates (d1 - d0) / sigma^2 with
     # an absolute error of about |y|^2 * 1e-7 / sigma^2, which for |y| ~ 12 and sigma^2 ~ 0.007 exceeded the cross-check's 5e-4
     # relative tolerance on 64-PSK (engine-fault report on the unchanged tree in the thorough tier); the PROOF is for all y, sigma^2 > 0
@@ -606,6 +608,14 @@ def soft_scaling(ctx, vcfg):
         nv_of = lambda idx: s
         arg = _nv_tensor(ctx, s) if form == "t0" else s
         keep = [z3.Real("nv")]
+    elif form == "bs1":
+        nvt = ctx.reals("nv", (shape[0], 1), sampler=lambda r: 10 ** r.uniform(-1, 2))
+        nvp = P(nvt)
+        for v in nvp.reshape(-1):
+            ctx.assume(S.lt(0, v))
+        nv_of = lambda idx: nvp[idx[0], 0]
+        arg = nvt
+        keep = [z3.Real(f"nv[{i}]") for i in range(shape[0])]
     else:
         nvt = ctx.reals("nv", shape, sampler=lambda r: 10 ** r.uniform(-3, 3))
         nvp = P(nvt)
@@ -616,6 +626,10 @@ def soft_scaling(ctx, vcfg):
         keep = [z3.Real(f"nv[{i}]") for i in range(int(np.prod(shape)))]
     sc1 = Scheme(cfg)  # a second, fresh object for the reference call (schemes with memory toggle their state)
     out = ctx.call(sc.dem.forward, y, arg)
+    if form == "bs1" and not out.ok and out.raised(IndexError, RuntimeError, ValueError, TypeError):
+        # a demodulator that does not broadcast a (B, 1) variance rejects it (PSKDemodulator indexes it per symbol): an error is not a
+        # wrong LLR; the clause is stated for the demodulators that accept the shape
+        return
     ref = ctx.call(sc1.dem.forward, y, torch.tensor(1.0))
     ctx.ensure("returns", out.ok and ref.ok, note=repr(out.exc or ref.exc) if not (out.ok and ref.ok) else "")
     if not (out.ok and ref.ok):
